@@ -221,3 +221,13 @@ package tuf
 //@ func ext:(internal/tuf.RootMetadata).GetPrincipals -> (m)
 //@   trusted
 //@   pure
+
+//@ # hooks as immutable values
+//@ spec hookTimeout(h Hook) int
+//@ func ext:(internal/tuf.Hook).GetTimeout -> (n)
+//@   trusted
+//@   pure
+//@   ensures n == hookTimeout(self)
+//@ func ext:(internal/tuf.Hook).GetBlobID -> (id)
+//@   trusted
+//@   pure
